@@ -132,6 +132,28 @@ func (v *vSeq) tick() {
 	}
 }
 
+// vRoleOf: the role op's argument -> LockDB.status. 1 = leader; every other value is a node that is NOT the leader, in one of its states
+// (the model only knows leader / not leader: C10 demands the same behaviour of all of them).
+func vRoleOf(arg int) uint8 {
+	switch arg {
+	case 1:
+		return STATE_LEADER
+	case 2:
+		return STATE_SYNC
+	case 3:
+		return STATE_CONFIG
+	case 4:
+		return STATE_VOTE
+	case 5:
+		return STATE_INIT
+	}
+	return STATE_FOLLOWER
+}
+
+func vNonLeaderArg(r *rand.Rand) int {
+	return []int{0, 0, 0, 2, 2, 3, 4, 5}[r.Intn(8)]
+}
+
 type vOp struct {
 	kind                                                                             byte // L U T R S
 	req, conn, flag, lockId, key, tflag, timeout, eflag, expried, count, rcount, arg int
@@ -277,11 +299,7 @@ func (v *vSeq) apply(o vOp, keys []int) string {
 		v.tick()
 		return v.takeReplies()
 	case 'R':
-		if o.arg == 1 {
-			v.db.status = STATE_LEADER
-		} else {
-			v.db.status = STATE_FOLLOWER
-		}
+		v.db.status = vRoleOf(o.arg)
 		return "-"
 	case 'S':
 		return v.snapshot(keys)
@@ -500,7 +518,7 @@ func (x *vRun) body(n int) {
 			x.do(vOp{kind: 'S'})
 		default:
 			leader = !leader
-			a := 0
+			a := vNonLeaderArg(r)
 			if leader {
 				a = 1
 			}
